@@ -55,6 +55,9 @@ RtVariants(c) ==
              k \in {j \in 1..Len(Children(c)) : Children(c)[j].cls \in Classes}, n \in 1..3}
     \cup {[cls |-> c, kind |-> "allchildren", which |-> "", n |-> 1]}
     \cup {[cls |-> c, kind |-> x, which |-> "", n |-> 1] : x \in {"foreign_child", "foreign_attr", "text_special", "text_unicode", "text_layout"}}
+    \* a tree three levels deep: every declared attribute and child at every level (lists with two members), a foreign
+    \* child and a foreign attribute at every level
+    \cup {[cls |-> c, kind |-> "deep", which |-> "", n |-> 3]}
     \* an attribute the class does not know whose qualified name looks like a declared one: the element's own namespace
     \* plus the local name of the first declared (unqualified) attribute; alone and next to the declared attribute
     \cup {[cls |-> c, kind |-> x, which |-> Attrs(c)[k].member, n |-> 1] : x \in {"ownns_attr", "ownns_attr_both"},
